@@ -590,7 +590,7 @@ static Boolean DecodePseudo(void) {
     LongInt Size;
 
     if (Memo("SINGLE")) {
-        if (ChkArgCnt(1, ArgCntMax)) {
+        if (ChkArgCnt(1, ArgCntMax) && !SetMaxCodeLen(ArgCnt << 2)) {
             OK = True;
             for (z = 0; z < ArgCnt; z++) {
                 double Float = EvalStrFloatExpression(&ArgStr[z + 1], Float32, &OK);
@@ -608,7 +608,7 @@ static Boolean DecodePseudo(void) {
     }
 
     if (Memo("DOUBLE")) {
-        if (ChkArgCnt(1, ArgCntMax)) {
+        if (ChkArgCnt(1, ArgCntMax) && !SetMaxCodeLen((ArgCnt << 3) + 4)) {
             int    z2;
             double Float;
 
@@ -643,6 +643,14 @@ static Boolean DecodePseudo(void) {
             for (z = 1; z <= ArgCnt; z++) {
                 if (OK) {
                     EvalStrExpression(&ArgStr[z], &t);
+                    if (SetMaxCodeLen(
+                                4
+                                * (cnt + 1
+                                   + ((t.Typ == TempString) ? t.Contents.str.len : 0)))) {
+                        WrError(ErrNum_CodeOverflow);
+                        OK = False;
+                        continue;
+                    }
                     switch (t.Typ) {
                     case TempString: {
                         unsigned z2;
